@@ -1970,19 +1970,28 @@ MHD_str_pct_decode_in_place_strict_ (char *str)
     {
       const char d1 = str[r++];
       if (0 == d1)
+      {
+        str[0] = 0; /* Truncate the string as documented */
         return 0;
+      }
       else
       {
         const char d2 = str[r++];
         if (0 == d2)
+        {
+          str[0] = 0; /* Truncate the string as documented */
           return 0;
+        }
         else
         {
           const int h = toxdigitvalue (d1);
           const int l = toxdigitvalue (d2);
           unsigned char out;
           if ((0 > h) || (0 > l))
+          {
+            str[0] = 0; /* Truncate the string as documented */
             return 0;
+          }
           out =
             (unsigned char) (((uint8_t) (((uint8_t) ((unsigned int) h)) << 4))
                              | ((uint8_t) ((unsigned int) l)));
